@@ -4,6 +4,7 @@ import (
 	"fmt"
 	"go/ast"
 	"go/constant"
+	"go/parser"
 	"go/token"
 	"go/types"
 	"strings"
@@ -352,83 +353,215 @@ func (e *Env) RMerge() {
 	e.mergeSlots(c)
 }
 
-// mergeSlots: decorateSelectorExpr feeds the 13 slots to mergeDecorations in source order.
+// mergeSlots: decorateSelectorExpr feeds the selector's 11 inner slots to mergeDecorations in
+// source order and appends the three merged lists to the identifier's Start, X and End. The
+// slots are read as expressions over f and n (locals replaced by their definitions); the merge
+// and the append may be inline or in a same-package helper that takes the target and the slots.
 func (e *Env) mergeSlots(c *schema.Ctx) {
 	pkg := e.Prog.Pkg(load.PkgDecorator)
 	fd := load.FuncDecl(pkg, "fileDecorator", "decorateSelectorExpr")
 	if fd == nil || fd.Body == nil {
 		return
 	}
-	// variable → source
-	src := map[string]string{}
-	ast.Inspect(fd.Body, func(n ast.Node) bool {
-		as, ok := n.(*ast.AssignStmt)
-		if !ok || as.Tok != token.ASSIGN || len(as.Lhs) != 1 || len(as.Rhs) != 1 {
-			return true
+	info := pkg.TypesInfo
+	isAppend := func(call *ast.CallExpr) bool {
+		fn := c.Callee(call)
+		return fn != nil && fn.Name() == "Append" && schema.IsMethod(fn, load.PkgDst, "Decorations", "Append") && call.Ellipsis.IsValid() && len(call.Args) == 1
+	}
+	// parseAppend: "T.Append(mergeDecorations(a, b, c)...)" → T, [a b c], spread
+	parseAppend := func(text string) (target string, slots []string, spread bool, ok bool) {
+		x, err := parser.ParseExpr(text)
+		if err != nil {
+			return
 		}
-		if id, ok := as.Lhs[0].(*ast.Ident); ok {
-			rhs := c.ExprStr(as.Rhs[0])
-			// decs["Start"] inside `if decs, ok := f.decorations[n.X]; ok {`
-			if strings.HasPrefix(rhs, "decs[") {
-				ast.Inspect(fd.Body, func(m ast.Node) bool {
-					if is, ok := m.(*ast.IfStmt); ok && is.Init != nil && is.Body.Pos() <= as.Pos() && as.End() <= is.Body.End() {
-						if ia, ok := is.Init.(*ast.AssignStmt); ok && len(ia.Rhs) == 1 {
-							rhs = c.ExprStr(ia.Rhs[0]) + strings.TrimPrefix(rhs, "decs")
+		call, isCall := x.(*ast.CallExpr)
+		if !isCall || len(call.Args) != 1 {
+			return
+		}
+		sel, isSel := call.Fun.(*ast.SelectorExpr)
+		inner, isInner := call.Args[0].(*ast.CallExpr)
+		if !isSel || !isInner {
+			return
+		}
+		if id, isID := inner.Fun.(*ast.Ident); !isID || id.Name != "mergeDecorations" {
+			return
+		}
+		for _, a := range inner.Args {
+			slots = append(slots, types.ExprString(a))
+		}
+		return types.ExprString(sel.X), slots, inner.Ellipsis.IsValid(), true
+	}
+	// a slot that is still a bare local: declared zero and assigned once, at the top level of the
+	// function or under the comma-ok of the very map lookup it indexes (a missing entry leaves the
+	// zero value, which mergeDecorations skips like an empty list)
+	undo := c.InstallReaching(fd)
+	defer undo()
+	localSrc := func(name string) string {
+		var found []string
+		ast.Inspect(fd.Body, func(n ast.Node) bool {
+			as, ok := n.(*ast.AssignStmt)
+			if !ok || as.Tok != token.ASSIGN || len(as.Lhs) != len(as.Rhs) {
+				return true
+			}
+			for i, l := range as.Lhs {
+				id, ok := l.(*ast.Ident)
+				if !ok || id.Name != name {
+					continue
+				}
+				if _, isVar := info.Uses[id].(*types.Var); !isVar {
+					continue
+				}
+				rhs := c.ExprStr(as.Rhs[i])
+				guard, okc := pathCond(c, fd.Body.List, as)
+				// conditions that hold for the whole tail of the function (early returns above) are
+				// not conditions of this assignment
+				if base, okb := pathCond(c, fd.Body.List, fd.Body.List[len(fd.Body.List)-1]); okb && okc {
+					var rest []string
+					inBase := map[string]bool{}
+					for _, p := range splitTop(base, " && ") {
+						inBase[p] = true
+					}
+					for _, p := range splitTop(guard, " && ") {
+						if !inBase[p] {
+							rest = append(rest, p)
 						}
 					}
-					return true
-				})
+					guard = strings.Join(rest, " && ")
+				}
+				switch {
+				case !okc:
+					found = append(found, "?")
+				case guard == "":
+					found = append(found, rhs)
+				case strings.HasPrefix(guard, "ok(") && strings.HasSuffix(guard, ")") && strings.HasPrefix(rhs, guard[3:len(guard)-1]+"["):
+					found = append(found, rhs)
+				default:
+					found = append(found, "?")
+				}
 			}
-			src[id.Name] = rhs
+			return true
+		})
+		if len(found) == 1 {
+			return found[0]
 		}
-		return true
-	})
-	var calls []string
-	var targets []string
+		return name
+	}
+	got := map[string]string{}
+	dup := false
+	record := func(target string, slots []string) {
+		for i, sl := range slots {
+			if !strings.ContainsAny(sl, ".[(") {
+				slots[i] = localSrc(sl)
+			}
+		}
+		if dot := strings.Index(target, "."); dot >= 0 {
+			target = target[dot:]
+		}
+		if _, seen := got[target]; seen {
+			dup = true
+		}
+		got[target] = strings.Join(slots, " | ")
+	}
 	ast.Inspect(fd.Body, func(n ast.Node) bool {
-		is, ok := n.(*ast.IfStmt)
-		if !ok || is.Init == nil {
+		call, ok := n.(*ast.CallExpr)
+		if !ok {
 			return true
 		}
-		ia, ok := is.Init.(*ast.AssignStmt)
-		if !ok || len(ia.Rhs) != 1 {
+		if isAppend(call) {
+			if t, slots, spread, ok := parseAppend(c.ExprStr(call)); ok && !spread {
+				record(t, slots)
+			}
 			return true
 		}
-		call, ok := ia.Rhs[0].(*ast.CallExpr)
-		if !ok || !schema.IsFunc(c.Callee(call), load.PkgDecorator, "mergeDecorations") {
+		// helper(&target, slots...)
+		fn := c.Callee(call)
+		if fn == nil || fn.Pkg() != pkg.Types || fn.Name() == "mergeDecorations" {
 			return true
 		}
-		var args []string
-		for _, a := range call.Args {
-			if id, ok := a.(*ast.Ident); ok {
-				args = append(args, src[id.Name])
-			} else {
-				args = append(args, c.ExprStr(a))
+		var h *ast.FuncDecl
+		for _, d := range load.AllFuncDecls(pkg) {
+			if info.Defs[d.Name] == types.Object(fn) {
+				h = d
 			}
 		}
-		calls = append(calls, strings.Join(args, " | "))
-		for _, st := range is.Body.List {
-			targets = append(targets, stmtNorm(c, st))
+		sig, _ := fn.Type().(*types.Signature)
+		if h == nil || h.Body == nil || sig == nil || !sig.Variadic() || sig.Recv() != nil || sig.Params().Len() != 2 || call.Ellipsis.IsValid() || len(call.Args) < 1 {
+			return true
+		}
+		var appends []string
+		undoH := c.InstallReaching(h)
+		ast.Inspect(h.Body, func(m ast.Node) bool {
+			if ac, ok := m.(*ast.CallExpr); ok && isAppend(ac) {
+				appends = append(appends, c.ExprStr(ac))
+			}
+			return true
+		})
+		undoH()
+		if len(appends) != 1 {
+			return true
+		}
+		t, slots, spread, ok := parseAppend(appends[0])
+		if !ok || !spread || len(slots) != 1 || t != sig.Params().At(0).Name() || slots[0] != sig.Params().At(1).Name() {
+			return true
+		}
+		target := strings.TrimPrefix(c.ExprStr(call.Args[0]), "&")
+		var args []string
+		for _, a := range call.Args[1:] {
+			args = append(args, c.ExprStr(a))
+		}
+		record(target, args)
+		return true
+	})
+	want := map[string]string{
+		".Decs.Start": `f.decorations[n]["Start"] | f.before[n.X] | f.decorations[n.X]["Start"]`,
+		".Decs.X":     `f.decorations[n.X]["End"] | f.after[n.X] | f.decorations[n]["X"] | f.before[n.Sel] | f.decorations[n.Sel]["Start"]`,
+		".Decs.End":   `f.decorations[n.Sel]["End"] | f.after[n.Sel] | f.decorations[n]["End"]`,
+	}
+	ok := !dup && len(got) == len(want)
+	for k, v := range want {
+		if got[k] != v {
+			ok = false
+		}
+	}
+	e.Run.Check("R-MERGE", "decorateSelectorExpr merges the selector's 11 inner slots in source order into the identifier's Start, X, End", e.Prog.Pos(fd.Pos()), ok,
+		fmt.Sprintf("merged and appended: %v; expected %v (every decoration point and spacing of the selector, of X and of Sel, in the order they occur in the source)", got, want))
+	// Before/After of the selector itself
+	sp := map[string]string{}
+	ast.Inspect(fd.Body, func(n ast.Node) bool {
+		if as, ok := n.(*ast.AssignStmt); ok && len(as.Lhs) == 1 && len(as.Rhs) == 1 {
+			l := c.ExprStr(as.Lhs[0])
+			if strings.HasSuffix(l, ".Decs.Before") || strings.HasSuffix(l, ".Decs.After") {
+				sp[l[strings.Index(l, "."):]] = c.ExprStr(as.Rhs[0])
+			}
 		}
 		return true
 	})
-	want := []string{
-		`f.decorations[n]["Start"] | f.before[n.X] | f.decorations[n.X]["Start"]`,
-		`f.decorations[n.X]["End"] | f.after[n.X] | f.decorations[n]["X"] | f.before[n.Sel] | f.decorations[n.Sel]["Start"]`,
-		`f.decorations[n.Sel]["End"] | f.after[n.Sel] | f.decorations[n]["End"]`,
-	}
-	wantT := []string{"out.Decs.Start.Append(iStart...)", "out.Decs.X.Append(iX...)", "out.Decs.End.Append(iEnd...)"}
-	ok := len(calls) == 3 && strings.Join(calls, " ;; ") == strings.Join(want, " ;; ")
-	e.Run.Check("R-MERGE", "decorateSelectorExpr merges the selector's 11 inner slots in source order into Start, X, End", e.Prog.Pos(fd.Pos()), ok,
-		fmt.Sprintf("merge calls: %v; expected %v (every decoration point and spacing of the selector, of X and of Sel, in the order they occur in the source)", calls, want))
-	e.Run.Check("R-MERGE", "decorateSelectorExpr stores the three merged lists on the identifier's Start, X and End", e.Prog.Pos(fd.Pos()), strings.Join(targets, ";") == strings.Join(wantT, ";"), fmt.Sprint(targets))
-	// Before/After of the selector itself
-	var sp []string
-	for _, st := range fd.Body.List {
-		s := stmtNorm(c, st)
-		if strings.HasPrefix(s, "out.Decs.Before =") || strings.HasPrefix(s, "out.Decs.After =") {
-			sp = append(sp, s)
+	e.Run.Check("R-MERGE", "decorateSelectorExpr keeps the selector's own Before/After spacing", e.Prog.Pos(fd.Pos()), len(sp) == 2 && sp[".Decs.Before"] == "f.before[n]" && sp[".Decs.After"] == "f.after[n]", fmt.Sprint(sp))
+}
+
+// splitTop splits s at the separators that are not inside parentheses, brackets or quotes.
+func splitTop(s, sep string) []string {
+	var out []string
+	depth, start := 0, 0
+	inStr := false
+	for i := 0; i < len(s); i++ {
+		ch := s[i]
+		switch {
+		case ch == '"' && (i == 0 || s[i-1] != '\\'):
+			inStr = !inStr
+		case inStr:
+		case ch == '(' || ch == '[' || ch == '{':
+			depth++
+		case ch == ')' || ch == ']' || ch == '}':
+			depth--
+		case depth == 0 && strings.HasPrefix(s[i:], sep):
+			out = append(out, strings.TrimSpace(s[start:i]))
+			start = i + len(sep)
+			i += len(sep) - 1
 		}
 	}
-	e.Run.Check("R-MERGE", "decorateSelectorExpr keeps the selector's own Before/After spacing", e.Prog.Pos(fd.Pos()), strings.Join(sp, ";") == "out.Decs.Before = f.before[n];out.Decs.After = f.after[n]", fmt.Sprint(sp))
+	if strings.TrimSpace(s[start:]) != "" {
+		out = append(out, strings.TrimSpace(s[start:]))
+	}
+	return out
 }
